@@ -239,6 +239,10 @@ class Exec:
 
     def oblige(self, kind, goal, pos='', label=None, text=''):
         self.V.add_obl(kind, goal, self.reach, pos, label, text)
+        if kind in ('nil', 'bounds', 'div0', 'typeassert', 'nilchan', 'sendclosed', 'closeclosed', 'pre'):
+            # execution continues past this point only if the condition held (otherwise the program panicked or
+            # blocked): later obligations may rely on it, so one missing fact is reported once, not as a cascade
+            self.hyp(goal)
 
     def assume_typed(self, term, tk):
         for f in well_typed(self.V, self.heap, term, tk):
